@@ -33,4 +33,60 @@ def firstInput (stream : Bytes) (eof : Bool) : Handshake.Input :=
   else if eof then (if stream.isEmpty then .closed else .line (dropCR stream))
   else .silent
 
+/-! ### The post-handshake stdout consumer
+
+After the first line, `Client.Start`'s reader goroutine keeps calling
+`scanner.Scan()` and sends every token to `linesCh`; a goroutine started by a
+`defer` in `Start` receives from `linesCh` forever.  The plugin's stdout is a
+pipe: bytes the host does not read eventually block the plugin.  `unread` is
+the part of the post-handshake stdout stream the host is not guaranteed to
+read. -/
+
+/-- Structural facts about the source (tie T-A). -/
+structure DrainParams where
+  /-- token limit of the scanner (`bufio.MaxScanTokenSize` unless `Buffer` is called) -/
+  maxToken : Nat
+  /-- a goroutine receives from `linesCh` until it is closed (`for range linesCh {}`) -/
+  drainsLines : Bool
+  /-- when `Scan` stops with an error the goroutine keeps reading stdout (e.g. `io.Copy(io.Discard, …)`) -/
+  drainsAfterScannerError : Bool
+  deriving DecidableEq, Repr
+
+def DrainParams.Good (P : DrainParams) : Prop :=
+  P.drainsLines = true ∧ P.drainsAfterScannerError = true
+
+instance (P : DrainParams) : Decidable P.Good := by unfold DrainParams.Good; exact inferInstance
+
+/-- One `Scan()` on the unread stream. -/
+inductive Tok
+  /-- a token was delivered; `rest` follows its `\n` -/
+  | token (rest : Bytes)
+  /-- the buffer (`maxToken` bytes) filled up without a `\n`: `ErrTooLong`; `unread` was never read -/
+  | tooLong (unread : Bytes)
+  /-- the stream ended (a final unterminated token, if any, has been delivered) -/
+  | eof
+  deriving DecidableEq, Repr
+
+/-- `scanTok k s`: look for `\n` among the next `k` bytes (`k` = free buffer space). -/
+def scanTok : Nat → Bytes → Tok
+  | 0, rest => .tooLong rest
+  | _+1, [] => .eof
+  | k+1, c :: cs => if c = 10 then .token cs else scanTok k cs
+
+/-- Bytes of `s` left unread when the reader goroutine stops or blocks for good. -/
+def unreadFuel (P : DrainParams) : Nat → Bytes → Bytes
+  | 0, s => s
+  | f+1, s =>
+    match scanTok P.maxToken s with
+    | .eof => []
+    | .token rest =>
+      -- `linesCh <- scanner.Text()` needs a receiver
+      if P.drainsLines then unreadFuel P f rest else rest
+    | .tooLong u => if P.drainsAfterScannerError then [] else u
+
+def unread (P : DrainParams) (s : Bytes) : Bytes := unreadFuel P (s.length + 1) s
+
+/-- Does the host read ALL bytes the plugin writes to stdout after the first line? -/
+def consumes (P : DrainParams) (stream : Bytes) : Bool := (unread P stream).isEmpty
+
 end GoPlugin.Scanner
